@@ -86,13 +86,13 @@ inductive PC where
   | c8 (id : Nat)                        -- Clear: bucket := Load(&s.streams[id/64])
   | c9 (id : Nat) (bucket : Word)        -- CAS(&s.streams[id/64], bucket, bucket &^ mask)
   | c10 (id : Nat)                       -- (CAS failed) bucket = Load(...)
-  | c11                                  -- AddInt32(&s.inuseStreams, -1)
+  | c11 (id : Nat)                       -- AddInt32(&s.inuseStreams, -1)   (`id` = the id just cleared)
   | a12                                  -- Available: Load(&s.inuseStreams)
 deriving Repr, DecidableEq
 
 def PC.yieldPoint : PC → Nat
   | .idle => 0 | .g1 => 1 | .g2 _ => 2 | .g3 => 3 | .g4 _ _ => 4 | .g5 _ _ _ _ => 5 | .g6 _ _ _ => 6
-  | .g7 _ => 7 | .c8 _ => 8 | .c9 _ _ => 9 | .c10 _ => 10 | .c11 => 11 | .a12 => 12
+  | .g7 _ => 7 | .c8 _ => 8 | .c9 _ _ => 9 | .c10 _ => 10 | .c11 _ => 11 | .a12 => 12
 
 def startPC : Op → PC
   | .get => .g1
@@ -146,12 +146,12 @@ def tstep (sh : Shared) (pc : PC) : Shared × PC × Option Ret :=
       else (sh, .idle, some .crashIndex)
   | .c9 id b =>
       if sh.words.getD (bucketOffset id) 0 = b then
-        ({ sh with words := sh.words.set (bucketOffset id) (b &&& ~~~ mask id) }, .c11, none)
+        ({ sh with words := sh.words.set (bucketOffset id) (b &&& ~~~ mask id) }, .c11 id, none)
       else (sh, .c10 id, none)
   | .c10 id =>
       let b := sh.words.getD (bucketOffset id) 0
       if b &&& mask id ≠ mask id then (sh, .idle, some (.cleared false)) else (sh, .c9 id b, none)
-  | .c11 =>
+  | .c11 _ =>
       let v := sh.inuse - 1
       ({ sh with inuse := v }, .idle, some (if v < 0 then .crashNegative else .cleared true))
   | .a12 => (sh, .idle, some (.avail ((64 * n : Nat) - sh.inuse - 1)))
@@ -224,5 +224,112 @@ def run (s : State) : List Action → Option State
       | some (s', _) => run s' as
       | none => none
     else none
+
+/-! ### history events and runs WITHOUT the client protocol -/
+
+/-- what the monitors count: a `GetStream` call returned `id, true`; a `Clear(id)` call that had
+    flipped the bit of `id` from 1 to 0 returned (`true`, or the 'negative streams inuse' panic) -/
+inductive Ev where
+  | got (id : Nat)
+  | released (id : Nat)
+deriving Repr, DecidableEq
+
+/-- the event produced when a thread standing at `pc` performs its atomic operation: the calls
+    return exactly at `g7` (after the add) and at `c11` (after the add) -/
+def evOfPC : PC → List Ev
+  | .g7 id => [.got id]
+  | .c11 id => [.released id]
+  | _ => []
+
+def evOf (s : State) : Action → List Ev
+  | .step t => match s.threads[t]? with
+    | some pc => evOfPC pc
+    | none => []
+  | .start _ _ => []
+
+/-- run a schedule with NO client protocol (any thread may call `Clear` of any id at any time); only
+    the actions accepted by `ok` are allowed (`anyAct`: all). Events are accumulated in front of `evs`. -/
+def runAny (ok : State → Action → Bool) (s : State) (evs : List Ev) : List Action → Option (State × List Ev)
+  | [] => some (s, evs)
+  | a :: as =>
+    if ok s a then
+      match step s a with
+      | some (s', _) => runAny ok s' (evOf s a ++ evs) as
+      | none => none
+    else none
+
+def anyAct : State → Action → Bool := fun _ _ => true
+
+/-- excluded case 1: `Clear(0)` (the reserved id) is called -/
+def noClear0 : State → Action → Bool
+  | _, .start _ (.clear id) => decide (id ≠ 0)
+  | _, _ => true
+
+/-- excluded case 2: the CAS of a `Clear(id)` call is about to succeed while a `GetStream` call has
+    acquired `id` (its CAS succeeded) but has not returned it yet (only a stale / double release of an id
+    that is being handed out again can do that) -/
+def rogueCAS (s : State) : Action → Bool
+  | .step t => match s.threads[t]? with
+    | some (.c9 id b) => decide (s.sh.words.getD (bucketOffset id) 0 = b) && s.threads.any (fun pc => decide (pc = .g7 id))
+    | _ => false
+  | .start _ _ => false
+
+def calm (s : State) (a : Action) : Bool := noClear0 s a && !rogueCAS s a
+
+/-! ### the sequential specification as a checker of an answer trace
+
+Abstract state of the specification: the set of ids handed out and not yet released, as a table
+`tbl[id]` (size `cap` = NumStreams, all false initially) and its cardinality `cnt` (0 initially, +1 when
+an id is handed out, -1 when an id that was handed out is released). Independent of the bitset / counter
+representation of the code. -/
+
+structure SpecSt where
+  tbl : Array Bool
+  cnt : Nat
+
+def specInit (cap : Nat) : SpecSt := { tbl := Array.replicate cap false, cnt := 0 }
+
+def specStep (cap : Nat) (tbl : Array Bool) (cnt : Nat) : Op → Option Ret → Option SpecSt
+  | .get, some (.stream id true) =>
+      -- the id handed out is not 0, in range and was free
+      if 1 ≤ id ∧ id < cap ∧ tbl.getD id false = false then some { tbl := tbl.setIfInBounds id true, cnt := cnt + 1 } else none
+  | .get, some (.stream id false) =>
+      -- exhaustion is reported only when every non-reserved id is handed out
+      if id = 0 ∧ cnt = cap - 1 then some { tbl := tbl, cnt := cnt } else none
+  | .clear id, some (.cleared b) =>
+      -- releasing reports whether the id was in use; releasing a free id changes nothing
+      if id < cap ∧ b = tbl.getD id false then
+        some { tbl := tbl.setIfInBounds id false, cnt := if b then cnt - 1 else cnt }
+      else none
+  | .clear id, some .crashIndex =>
+      -- (what the code does for an id beyond the capacity: index panic, nothing changes)
+      if cap ≤ id then some { tbl := tbl, cnt := cnt } else none
+  | .avail, some (.avail v) =>
+      if v = ((cap - 1 - cnt : Nat) : Int) then some { tbl := tbl, cnt := cnt } else none
+  | _, _ => none
+
+/-- every answer is allowed by the specification and after every op `Available()` (third component)
+    is the number of non-reserved ids not handed out -/
+def specCheck (cap : Nat) : SpecSt → List (Op × Option Ret × Int) → Bool
+  | _, [] => true
+  | st, (op, r, av) :: rest =>
+    match specStep cap st.tbl st.cnt op r with
+    | some st' => decide (av = ((cap - 1 - st'.cnt : Nat) : Int)) && specCheck cap st' rest
+    | none => false
+
+/-- the model's answer trace of a sequential op list: (op, answer, `Available()` afterwards) -/
+def seqTrace : Shared → List Op → List (Op × Option Ret × Int)
+  | _, [] => []
+  | sh, op :: ops => (op, (seqOp sh op).2, available (seqOp sh op).1) :: seqTrace (seqOp sh op).1 ops
+
+/-- `specCheck` on the model's own trace, fused (tail recursive, table updated in place: this is what
+    the driver runs; `seqMon_eq` in Proofs/C08SeqSpec) -/
+def seqMon (cap : Nat) : Shared → Array Bool → Nat → List Op → Bool
+  | _, _, _, [] => true
+  | sh, tbl, cnt, op :: ops =>
+    match specStep cap tbl cnt op (seqOp sh op).2 with
+    | some st' =>
+      decide (available (seqOp sh op).1 = ((cap - 1 - st'.cnt : Nat) : Int)) && seqMon cap (seqOp sh op).1 st'.tbl st'.cnt ops
+    | none => false
 
 end Streams
